@@ -275,25 +275,34 @@ Lemma expected_blocks :
   expected_convert2es6 = B_zero ++ B_nan ++ B_sign ++ B_exp ++ B_dot ++ B_strip ++ B_asm.
 Proof. reflexivity. Qed.
 
+Lemma L_zero : forall arg s, exec arg B_zero s = if is_zero_repr arg then Returned [c_0] else Normal s.
+Proof. intros arg s. unfold B_zero. cbn -[is_zero_repr]. destruct (is_zero_repr arg); reflexivity. Qed.
+
+Lemma L_nan : forall arg s,
+  exec arg B_nan s = match find_idx c_n arg with Some _ => Raised | None => Normal (sset s VDouble arg) end.
+Proof.
+  intros arg s. unfold B_nan. cbn -[find_z Z.leb]. unfold find_z, c_n.
+  destruct (find_idx 110%N arg) as [i|]; [|reflexivity].
+  destruct (Z.leb_spec 0 (Z.of_nat i)); [reflexivity|exfalso; lia].
+Qed.
+
+Global Opaque B_zero B_nan B_sign B_exp B_dot B_strip B_asm.
+
 Theorem expected_exec : forall arg, exec arg expected_convert2es6 st0 = outcome_of (convert2es6 arg).
 Proof.
   intro arg. rewrite expected_blocks. unfold convert2es6.
-  rewrite exec_app. unfold B_zero. cbn -[is_zero_repr].
-  destruct (is_zero_repr arg); [reflexivity|].
-  rewrite exec_app. unfold B_nan. cbn -[find_z Z.leb]. unfold find_z, c_n.
-  destruct (find_idx 110%N arg) as [i|].
-  - destruct (Z.leb_spec 0 (Z.of_nat i)); [reflexivity|exfalso; lia].
-  - cbn -[exec].
-    rewrite exec_app, L_sign. cbn -[exec split_sign].
-    destruct (split_sign arg) as [pySign pyDouble]. cbn -[exec].
-    rewrite exec_app, L_exp. cbn -[exec split_exp find_z].
-    destruct (split_exp pyDouble) as [[[pyExpStr pyDouble'] pyExpVal]|e]; [|reflexivity].
-    cbn -[exec find_z].
-    rewrite exec_app, L_dot. cbn -[exec split_dot find_z].
-    destruct (split_dot pyDouble') as [[f d] l]. cbn -[exec find_z].
-    rewrite exec_app, L_strip. cbn -[exec strip_dot0 find_z].
-    destruct (strip_dot0 (f, d, l)) as [[f' d'] l']. cbn -[exec find_z].
-    rewrite L_asm. reflexivity.
+  rewrite exec_app, L_zero. destruct (is_zero_repr arg); [reflexivity|].
+  rewrite exec_app, L_nan. destruct (find_idx c_n arg) as [i|]; [reflexivity|].
+  rewrite exec_app, L_sign. cbn -[exec find_z split_sign split_exp split_dot strip_dot0 assemble].
+  destruct (split_sign arg) as [pySign pyDouble]. cbn -[exec find_z split_sign split_exp split_dot strip_dot0 assemble].
+  rewrite exec_app, L_exp. cbn -[exec find_z split_sign split_exp split_dot strip_dot0 assemble].
+  destruct (split_exp pyDouble) as [[[pyExpStr pyDouble'] pyExpVal]|e]; [|reflexivity].
+  cbn -[exec find_z split_sign split_exp split_dot strip_dot0 assemble].
+  rewrite exec_app, L_dot. cbn -[exec find_z split_sign split_exp split_dot strip_dot0 assemble].
+  destruct (split_dot pyDouble') as [[f d] l]. cbn -[exec find_z split_sign split_exp split_dot strip_dot0 assemble].
+  rewrite exec_app, L_strip. cbn -[exec find_z split_sign split_exp split_dot strip_dot0 assemble].
+  destruct (strip_dot0 (f, d, l)) as [[f' d'] l']. cbn -[exec find_z split_sign split_exp split_dot strip_dot0 assemble].
+  rewrite L_asm. reflexivity.
 Qed.
 
 Theorem expected_run : forall arg, run_fun arg expected_convert2es6 = convert2es6 arg.
